@@ -1,10 +1,10 @@
 SPECIFICATION Spec
 CONSTANTS
   P = 11
-  MaxN = 3
+  MaxN = 2
   MaxT = 2
   IdVals = {1, 3, 7, 10}
-  IdOrder = "asc"
+  IdOrder = "all"
   IdSeqs <- MC_IdSeqs
   CoefVals = {0, 2, 6, 9}
   Msgs = {5}
